@@ -122,6 +122,33 @@ def check_rendering(ctx, err, s, pos, name, lo, case):
         ctx.violation("excerpt-line", {"text": s, "position": pos, "offset": lo, "expected_line": exp_shown, "shown": shown}, case)
 
 
+def check_node_errors(ctx, s, rng, case, flags=None):
+    """An error that blames a node - any node, the document itself included - carries the node's true line and column."""
+    from ..mon.astutil import walk
+    try:
+        doc = parse(Source(s), **(flags or {}))
+    except Exception:  # noqa: BLE001
+        return
+    nodes = list(walk(doc))
+    if len(nodes) > 40:
+        nodes = [doc] + rng.sample(nodes[1:], 39)
+    for n in nodes:
+        if n.loc is None:
+            continue
+        ctx.count("node_error_locations_checked")
+        exp = R.line_col(s, n.loc.start)
+        try:
+            err = GraphQLError('blamed', n)
+            got = [tuple(l) for l in err.locations or []]
+            fmt = err.formatted.get('locations')
+        except Exception as e:  # noqa: BLE001
+            ctx.violation(f"render-crash:{type(e).__name__}", {"text": s, "node": n.kind, "exception": repr(e)[:200]}, case)
+            return
+        if got != [exp] or fmt != [{"line": exp[0], "column": exp[1]}]:
+            ctx.violation("node-error-location", {"text": s, "node": n.kind, "start": n.loc.start, "reported": got, "formatted": fmt, "true": exp}, case)
+            return
+
+
 def check_syntax_error(ctx, s, rng, case, flags=None):
     name = rng.choice(["GraphQL request", "Foo.graphql", "a b"])
     lo = (rng.choice(OFFS), rng.choice(OFFS)) if rng.random() < 0.6 else (1, 1)
@@ -279,6 +306,8 @@ def run_shard(ctx):
         check_tokens(ctx, s, case)
         if check_syntax_error(ctx, s, rng, case, flags) and any(c in s for c in '\n\r'):
             ctx.nontrivial(("src", s))
+        if k % 3 == 0:
+            check_node_errors(ctx, s, rng, case, flags)
         if len(s) < 40:
             source = Source(s)
             for off in range(len(s) + 1):
